@@ -28,17 +28,17 @@ if os.path.exists(f"{wt}/NOTES.md"):
     shutil.copy(f"{wt}/NOTES.md", f"{d}/NOTES.md")
 # run the checks against it
 results = {}
-rc, out = sh(f"git -C /repo apply {d}/patch.diff", cwd="/verif", env=os.environ)
-assert rc == 0, out
+# the checks read the tree named by VERIF_REPO: the scratch worktree with the change applied (same as `git -C /repo apply` + run + checkout,
+# without touching /repo while other runs read it)
 try:
     for p in [pid] + others:
-        rc, out = sh(f"python3-vt check.py --property {p}", cwd="/verif", env=dict(os.environ, VERIF_EVIDENCE_DIR="/tmp/seed_evidence"))
+        rc, out = sh(f"python3-vt check.py --property {p}", cwd="/verif", env=dict(os.environ, VERIF_EVIDENCE_DIR="/tmp/seed_evidence", VERIF_REPO=wt))
         lines = [l for l in out.splitlines() if l.startswith(("VIOLATION", "OK", "UNDECIDED", "CHECKER", "KNOWN"))]
         results[p] = {"exit": rc, "lines": [l[:300] for l in lines[:8]]}
         print(p, "exit", rc, *[l[:200] for l in lines[:4]], sep="\n   ")
 finally:
-    sh("git -C /repo checkout -- .", cwd="/verif", env=os.environ)
+    pass
 meta = {"property": pid, "name": name, "confirmed": confirmed, "suite_with_change": suite, "demo_exit_with_change": rc_with, "demo_exit_without_change": rc_without,
         "demo_output_with_change": out_with[-600:], "ran": ["pytest (unedited suite) in the scratch worktree", "demo.py with and without the change",
-        "git -C /repo apply patch.diff; python3-vt check.py --property ...; git -C /repo checkout -- ."], "check_results": results}
+        "VERIF_REPO=<scratch worktree with the change> python3-vt check.py --property ..."], "check_results": results}
 json.dump(meta, open(f"{d}/meta.json", "w"), indent=1)
